@@ -387,7 +387,7 @@ def run(ctx):
     for t in CORPUS:
         for mode in ("ast", "wrapped", "noast"):
             cases.append({"name": "c.proto", "text": t, "mode": mode})
-    n = ctx.budget(230, 12000)
+    n = ctx.budget(230, 4000)
     for i in range(n):
         syntax = rng.choice(["proto2", "proto2", "proto3", "editions"])
         text = Gen(rng, syntax).file()
